@@ -24,6 +24,9 @@ TsOf(d, t) == <<DateY(d) - 1970, DateM(d) - 1, DateD(d) - 1, TimeH(t), TimeMi(t)
 \* ---- directory entry (offsets of the FAT specification, +1)
 Le16(s, o) == s[o + 1] + 256 * s[o + 2]
 SlotName(s)    == SubSeq(s, 1, 11)          \* DIR_Name          0
+\* DIR_Name[0]: 0xE5 marks a deleted entry, so a name that starts with the character 0xE5 is stored with 0x05 there
+NameOf(s)      == [i \in 1..11 |-> IF i = 1 /\ s[1] = 5 THEN 229 ELSE s[i]]        \* the name a slot stands for
+StoredName(nm) == [i \in 1..11 |-> IF i = 1 /\ nm[1] = 229 THEN 5 ELSE nm[i]]      \* the bytes a name is stored as
 SlotAttr(s)    == s[12]                     \* DIR_Attr          11
 SlotCrtTime(s) == Le16(s, 14)               \* DIR_CrtTime       14
 SlotCrtDate(s) == Le16(s, 16)               \* DIR_CrtDate       16
